@@ -65,10 +65,12 @@ contract(f"{SB}::BaseScheduler.session", is_cm=True, params={}, props=["C11", "C
          # on EVERY exit of the with-body (normal or exceptional) the session is ended
          exit_ensures=["ghost.open_sessions == old(ghost.open_sessions)"],
          exit_modifies=["ghost.open_sessions"])
-contract(f"{SB}::BaseScheduler.start_session", params={}, props=["C11"], abstract=True,
-         ensures=["ghost.open_sessions == old(ghost.open_sessions) + 1"], modifies=["ghost.open_sessions"])
-contract(f"{SB}::BaseScheduler.end_session", params={}, props=["C11"], abstract=True,
-         ensures=["ghost.open_sessions == old(ghost.open_sessions) - 1"], modifies=["ghost.open_sessions"])
+# (check_overrides: a scheduler that overrides these without an own contract is verified against this one - its frame
+#  says that starting / ending a session does not move the scheduler's position, C09 "counted over its whole life")
+contract(f"{SB}::BaseScheduler.start_session", params={}, props=["C11", "C09"], abstract=True, check_overrides=True,
+         ghost_ensures=["ghost.open_sessions == old(ghost.open_sessions) + 1"], modifies=["ghost.open_sessions"])
+contract(f"{SB}::BaseScheduler.end_session", params={}, props=["C11", "C09"], abstract=True, check_overrides=True,
+         ghost_ensures=["ghost.open_sessions == old(ghost.open_sessions) - 1"], modifies=["ghost.open_sessions"])
 
 # BaseSampler.sample is proved in c12_dedup.py; here it may additionally raise (C11)
 # ---- Calibrator methods ------------------------------------------------------------------------------------
